@@ -80,6 +80,19 @@ impl Prop for C06 {
             return r;
         }
         r.nontrivial = true;
+        // the same call into a buffer of exactly the reported length must give
+        // the same body (metamorphic; independent of the reference, so that an
+        // open finding about the body itself is not reported twice)
+        let (e2, buf2) = encode_in(&case.env, &case.call, len, |i| 0x70 | (i as u8 & 0x0F));
+        match e2 {
+            Enc::Ok(n2) if n2 == len => {
+                if buf2[9..len - 1] != buf[9..len - 1] {
+                    r.fail(format!("C06:{}:body_differs_in_exact_fit_buffer", kind), format!("encoded into a buffer of exactly {} bytes the body is {}, into a large buffer {}", len, hex(&buf2[9..len - 1]), hex(&buf[9..len - 1])));
+                }
+            }
+            Enc::Ok(n2) => r.fail(format!("C06:{}:body_differs_in_exact_fit_buffer", kind), format!("encoded into a buffer of exactly {} bytes the encoder reports {} bytes (large buffer: {}): parameters were dropped or added", len, n2, len)),
+            _ => {} // refusing / panicking on an exact-fit buffer is C16's business
+        }
         let body = &buf[9..len - 1];
         if body == &p.body[..] {
             return r;
